@@ -88,6 +88,10 @@ def main():
         out.extra['escalated_search'] = {'tier': 'thorough', 'seed': seed + 1, 'evaluations': out2.evaluations,
                                          'failing_inputs_found': len(found)}
         out.evaluations += out2.evaluations
+        if found:
+            # the broken obligations are named in the evidence; the report carries the failing inputs
+            out.extra['escalated_search']['obligations_that_no_longer_check'] = [v['what'][:300] for v in out.violations if v['no_input']]
+            out.violations = [v for v in out.violations if not v['no_input']]
         out.violations.extend(found)
         has_input = bool(found)
     # ---- a broken proof obligation with no concrete failing input found is still a violation
